@@ -61,7 +61,8 @@ Section Writer.
   (* MafWriter(handle, header, assume_sorted): the state reached and whether
      the constructor raised (header validation is not modelled) *)
   Definition writer_open (h : wheader) (assume_sorted : bool) : writer * res unit :=
-    let out0 := match wh_text h with [] => [] | t => t end in
+    (* `if len(self._header) > 0: write(str(header) + "\n")`: no record, no line *)
+    let out0 := wh_text h in
     let w0 := {| w_out := out0; w_header := h; w_assume_sorted := assume_sorted;
                  w_scheme := wh_scheme h; w_sorter := None; w_checker := None; w_closed := false |} in
     match wh_scheme h with
